@@ -72,8 +72,13 @@ def run_case(case):
     viol = {}
 
     def record(obl, n0, sig, call, mode):
+        short = bool(getattr(obl.ctx, 'data', {}).get('short_peek'))
+        if short:
+            # the path took a peek() that came back with a single byte (allowed by BufferedReader's contract): its replay reads
+            # through a two-byte buffer
+            sig += '/short-peek'
         if len(obl.failed) > n0 and sig not in viol:
-            viol[sig] = {'signature': sig, 'what': obl.failed[n0][0], 'call': call, 'mode': mode}
+            viol[sig] = {'signature': sig, 'what': obl.failed[n0][0], 'call': call, 'mode': mode, 'short_peek': short}
 
     # (1) selector sweep under the identity schedule, one path
     def sweep(ctx):
